@@ -97,13 +97,18 @@ def w_transitions(idx):
             ops.append(o)
             if not ok:
                 dead = True   # reported at the transition where it is the last op
+                if type(exc).__name__ == "OperationDidNotTerminate":
+                    out.append((f"{o['name']}:did-not-terminate", repr(exc), {"kind": "history", "ops": list(ops)}))
+                    return n, out
                 break
         if dead:
             continue
         if canon(w.pi(FIELDS), FIELDS) != canon(t["from"], FIELDS):
             continue          # a divergence on the access path is reported at its own transition
         ops.append(t["op"])
-        for clause, det, exc in step(w, t["op"], t["to"]):
+        results = step(w, t["op"], t["to"])
+        hung = any(type(exc).__name__ == "OperationDidNotTerminate" for _, _, exc in results)
+        for clause, det, exc in results:
             flags = ""
             a = t["op"]["args"]
             if t["op"]["name"] == "replace_child":
@@ -115,6 +120,8 @@ def w_transitions(idx):
             e = f":{type(exc).__name__}" if exc is not None else ""
             out.append((f"{t['op']['name']}{flags}:{clause}{e}", det, {"kind": "history", "ops": ops, "expected_to": t["to"]}))
         n += 1
+        if hung:
+            break             # a call that does not return: reported once per worker, do not wait for every other case
     return n, out
 
 
